@@ -8,13 +8,14 @@
 #include <stdio.h>
 #include <string.h>
 
-enum { T_UNUSED = 0, T_RUNNABLE, T_BLOCKED, T_DONE };
+enum { T_UNUSED = 0, T_RUNNABLE, T_BLOCKED, T_DONE, T_BARRIER };
 
 struct task {
     int state;
     int futex;          /* 0 = must wait, 1 = has been handed the baton */
     int wait_ids[SIM_MAX_TASKS];
     int wait_n;
+    int barrier_team;   /* team whose barrier the task is waiting at (state T_BARRIER) */
 };
 
 static struct task tasks[SIM_MAX_TASKS];
@@ -22,8 +23,15 @@ static int n_tasks;
 static int current;                 /* holder of the baton */
 static uint64_t rng_state;
 static unsigned preempt_pm;
+/* Hand-overs cost 10-50 us each; beyond this many in one run the scheduler stops preempting (deterministically: the
+ * decision depends on the count only), so that a run with very many yield points cannot run into the watchdog. */
+#define SIM_MAX_PREEMPTIONS 250000
 static uint64_t st_yields, st_switches, st_hash, st_created;
 static __thread int self_id = -1;
+#define SIM_MAX_TEAMS 256
+#define SIM_MAX_LOCKS 64
+static int barrier_arrived[SIM_MAX_TEAMS];
+static int lock_owner[SIM_MAX_LOCKS]; /* 0 = free, else task id + 1 */
 
 static uint64_t next_u64(void) { /* splitmix64 */
     uint64_t z = (rng_state += 0x9E3779B97F4A7C15ull);
@@ -58,6 +66,8 @@ void sim_sched_reset(uint64_t seed, unsigned preempt_permille) {
     preempt_pm = preempt_permille;
     st_yields = st_switches = st_created = 0;
     st_hash = 0xcbf29ce484222325ull;
+    memset(barrier_arrived, 0, sizeof(barrier_arrived));
+    memset(lock_owner, 0, sizeof(lock_owner));
 }
 
 int sim_self(void) { return self_id; }
@@ -128,7 +138,7 @@ void sim_task_end(int id) {
 void sim_yield(void) {
     if (self_id < 0 || self_id != current) return; /* thread outside the simulation */
     ++st_yields;
-    if (n_tasks == 1 || preempt_pm == 0) return;
+    if (n_tasks == 1 || preempt_pm == 0 || st_switches >= SIM_MAX_PREEMPTIONS) return;
     int others = 0;
     for (int i = 0; i < n_tasks; ++i)
         if (i != self_id && tasks[i].state == T_RUNNABLE) { others = 1; break; }
@@ -166,6 +176,42 @@ void sim_wait_tasks(const int *ids, int n) {
         hand_over(to, 1);
         /* woken: state was set to RUNNABLE by unblock_ready */
     }
+}
+
+void sim_barrier(int team_id, int team_size) {
+    if (self_id < 0 || self_id != current) return;
+    if (team_id < 0 || team_id >= SIM_MAX_TEAMS) die("barrier: bad team id");
+    ++st_yields;
+    int me = self_id;
+    if (++barrier_arrived[team_id] >= team_size) {
+        /* last to arrive: release the others, keep running */
+        barrier_arrived[team_id] = 0;
+        for (int i = 0; i < n_tasks; ++i)
+            if (tasks[i].state == T_BARRIER && tasks[i].barrier_team == team_id) tasks[i].state = T_RUNNABLE;
+        return;
+    }
+    tasks[me].state = T_BARRIER;
+    tasks[me].barrier_team = team_id;
+    int to = pick_runnable(me);
+    if (to < 0) die("deadlock at barrier (a team member never arrives)");
+    hand_over(to, 1);
+}
+
+void sim_lock(int lock_id) {
+    if (self_id < 0 || self_id != current) return;
+    if (lock_id < 0 || lock_id >= SIM_MAX_LOCKS) die("lock: bad id");
+    while (lock_owner[lock_id] != 0 && lock_owner[lock_id] != self_id + 1) {
+        ++st_yields;
+        int to = pick_runnable(self_id);
+        if (to < 0) die("deadlock at lock");
+        hand_over(to, 1);
+    }
+    lock_owner[lock_id] = self_id + 1;
+}
+
+void sim_unlock(int lock_id) {
+    if (self_id < 0 || self_id != current) return;
+    if (lock_id >= 0 && lock_id < SIM_MAX_LOCKS && lock_owner[lock_id] == self_id + 1) lock_owner[lock_id] = 0;
 }
 
 uint64_t sim_stat_yield_points(void) { return st_yields; }
